@@ -83,7 +83,7 @@ def dl_histories(depth):
     """all valid histories up to the depth; objects are created by open/load/copy"""
     out = []
 
-    def rec(seq, nobj, nopen, kinds):
+    def rec(seq, nobj, nopen, kinds, types=()):
         if seq:
             out.append(";".join(seq))
         if len(seq) == depth:
@@ -95,6 +95,9 @@ def dl_histories(depth):
         for o in range(nobj):
             cands += [("load:%d" % o, 1, 0), ("loadbad:%d" % o, 0, 0), ("copy:%d" % o, 1, 0), ("del:%d" % o, 0, 0),
                       ("call:%d" % o, 0, 0)]
+            for p in range(nobj):
+                if types[o] == types[p]:
+                    cands.append(("asgn:%d:%d" % (o, p), 0, 0))
         for tok, dobj, dopen in cands:
             # a load/copy on a destroyed object is skipped by both sides and creates nothing;
             # the enumeration keeps object indices aligned by only counting creations on live objects
@@ -106,9 +109,18 @@ def dl_histories(depth):
             if tok.startswith("del:"):
                 k2[int(tok.split(":")[1])] = False
             created = dobj if alive else 0
-            rec(seq + [tok], nobj + created, nopen + dopen, k2 + [True] * created)
+            # kind of a created object: open -> dl, load -> symbol, copy -> same as the source
+            if tok == "open":
+                nt = ("d",)
+            elif tok.startswith("load:"):
+                nt = ("s",)
+            elif tok.startswith("copy:"):
+                nt = (types[int(tok.split(":")[1])],)
+            else:
+                nt = ()
+            rec(seq + [tok], nobj + created, nopen + dopen, k2 + [True] * created, tuple(types) + (nt if created else ()))
 
-    rec([], 0, 0, [])
+    rec([], 0, 0, [], ())
     return out
 
 
@@ -130,20 +142,24 @@ def gen_c19(tier, rng):
         out.append(case("own", "e", hexs(n), rng.choice(["set", "set", "unset"]), hexs(v), hexs(d)))
     for h in dl_histories(5 if big else 4):
         out.append(case("own", "d", h))
-    for _ in range(5000 if big else 600):
-        seq, nobj, nopen, alive = [], 0, 0, []
+    for _ in range(8000 if big else 2500):
+        seq, nobj, nopen, alive, types = [], 0, 0, [], []
         for _ in range(1 + rng.below(40)):
             r = rng.below(100)
             if (nobj == 0 or r < 12) and nopen < 6:
-                seq.append("open"); nobj += 1; nopen += 1; alive.append(True)
+                seq.append("open"); nobj += 1; nopen += 1; alive.append(True); types.append("d")
             elif r < 18:
                 seq.append("openbad")
             elif nobj:
                 o = rng.below(nobj)
-                k = rng.choice(["load", "loadbad", "copy", "copy", "del", "del", "call"])
+                k = rng.choice(["load", "loadbad", "copy", "copy", "del", "del", "call", "asgn", "asgn"])
+                if k == "asgn":
+                    cands = [p for p in range(nobj) if types[p] == types[o]]
+                    seq.append("asgn:%d:%d" % (o, rng.choice(cands)))
+                    continue
                 seq.append("%s:%d" % (k, o))
                 if k in ("load", "copy") and alive[o]:
-                    nobj += 1; alive.append(True)
+                    nobj += 1; alive.append(True); types.append("s" if k == "load" else types[o])
                 if k == "del":
                     alive[o] = False
         out.append(case("own", "d", ";".join(seq)))
